@@ -2,7 +2,7 @@
 import ast
 from vstatic import terms as T
 from vstatic.terms import sym, Term, Atom, lift, pretty
-from vstatic.model import AnalysisError
+from vstatic.model import AnalysisError, stmt_text
 
 B = 'voltage.backend.RawVoltageBackend'
 INT_ATTRS = {'num_branches', 'num_taps', 'fchans', 'tchans', 'num_chans', 'num_pols', 'num_antennas', 'num_bits',
@@ -169,9 +169,49 @@ def _match_groups(ctx, rule, title, fi, what_label, A, B, comps, describe):
             ctx.ob(rule, f'{title}: {what_label} `{describe(ea)}` has an equal counterpart in the reference definition', fi, True,
                    {'matched_reference': describe(cb[hit][0])}, node=ea.node, construct=describe(ea))
     rest_b = [cb[k] for k in range(len(cb)) if k not in used]
-    # pair the leftovers: prefer a counterpart that agrees on the identifying components (object / attribute /
-    # callee / container), fall back to position
+    # leftovers: events of one identity (object / attribute / callee / container) whose guards are mutually exclusive
+    # define ONE guarded value  Ite(g1, v1, Ite(g2, v2, ... <no event>)); the two sides are compared as such, so that
+    # merging branch tails into one statement, or splitting one statement over branches, is not a difference
     ident = ('object', 'attribute', 'callee', 'container')
+    ABSENT = T.lift('<no event>')
+
+    def ident_key(x):
+        return tuple(t.key for lab, t in x if lab in ident)
+
+    def guard_of(x):
+        g = [t for lab, t in x if lab == 'guard']
+        return g[0] if g else None
+
+    def exclusive(items):
+        gs = [guard_of(x) for _, x in items]
+        if any(g is None for g in gs):
+            return False
+        for i in range(len(gs)):
+            for j in range(i + 1, len(gs)):
+                if T.compare(T.mk_and([gs[i], gs[j]]), T.FALSE)[0] != T.EQUAL:
+                    return False
+        return True
+
+    def family(items):
+        t = ABSENT
+        for _, x in reversed(items):
+            t = T.mk_ite(guard_of(x), T.mk_tuple([v for lab, v in x if lab != 'guard']), t)
+        return t
+    groups = {}
+    for ea, xa in left:
+        groups.setdefault(ident_key(xa), ([], []))[0].append((ea, xa))
+    for eb, xb in rest_b:
+        groups.setdefault(ident_key(xb), ([], []))[1].append((eb, xb))
+    left2, rest2 = [], []
+    for k, (la, lb) in groups.items():
+        if la and lb and (len(la) != 1 or len(lb) != 1) and exclusive(la) and exclusive(lb):
+            ea = la[0][0]
+            ctx.formula(rule, f'{title}: {what_label}s `{describe(ea)}` (all branches together) == reference', fi, family(la), family(lb),
+                        node=ea.node, construct=describe(ea) + ' [guarded family]')
+        else:
+            left2 += la
+            rest2 += lb
+    left, rest_b = left2, rest2
     ordered = []
     pool = list(rest_b)
     for ea, xa in left:
@@ -192,10 +232,16 @@ def _match_groups(ctx, rule, title, fi, what_label, A, B, comps, describe):
                 ctx.formula(rule, f'{title}: {what_label} {la} == reference', fi, ta, tb, node=ea.node,
                             construct=describe(ea) + f' [{la}]')
         else:
+            g = guard_of(xa)
+            if g is not None and T.compare(g, T.FALSE)[0] == T.EQUAL:
+                continue        # on an infeasible path
             ctx.ob(rule, f'{title}: {what_label} `{describe(ea)}` exists in the reference definition', fi, False,
                    {'code': [describe(e) for e, _ in ca], 'reference': [describe(e) for e, _ in cb]}, node=ea.node,
                    construct=describe(ea) + ' [extra]')
     for eb, xb in rest_b[len(left):]:
+        g = guard_of(xb)
+        if g is not None and T.compare(g, T.FALSE)[0] == T.EQUAL:
+            continue
         ctx.ob(rule, f'{title}: the reference {what_label} `{describe(eb)}` is performed by the code', fi, False,
                {'code': [describe(e) for e, _ in ca], 'reference': [describe(e) for e, _ in cb]}, node=fi.node,
                construct=f'missing {what_label}: ' + describe(eb))
@@ -351,3 +397,359 @@ def dominates(e1, e2):
     on e1's path is also on e2's path (conditions introduced by earlier raising/returning branches included)."""
     k2 = {c.key for c in e2.pc}
     return e1.seq < e2.seq and all(c.key in k2 for c in e1.pc)
+
+
+def component_resets(I, comp):
+    """call events `<recv>._reset_cache()` whose RECEIVER VALUE is self.<comp>[i][j] (any index terms),
+    however the receiver expression is spelled (loop over a tuple of the component tables, an alias, ...)"""
+    from vstatic import terms as T
+    out = []
+    for e in I.events:
+        if e.kind != 'call' or not e.data.get('name', '').endswith('._reset_cache'):
+            continue
+        rv = e.data.get('recv')
+        if rv is None:
+            continue
+        a = rv.single_atom()
+        depth = 0
+        idxs = []
+        while a is not None and a.kind == 'sub':
+            idxs.append(a.args[1])
+            a = a.args[0].single_atom()
+            depth += 1
+        if a is not None and a.kind == 'attr' and a.args[1] == comp and a.args[0].key == T.sym('self').key and depth == 2:
+            e.data['_idx'] = list(reversed(idxs))
+            out.append(e)
+    return out
+
+
+def resets_all_pairs(e):
+    """the reset is performed for every (antenna, polarisation): it sits in a loop over range(num_antennas) and a loop
+    over range(num_pols) and the receiver is indexed by exactly those two loop indices"""
+    from vstatic.terms import pretty
+    if len(e.loops) < 2:
+        return False
+    by = {}
+    for l in e.loops:
+        it = pretty(l['iter'])
+        if it == 'range(self.num_antennas)':
+            by['a'] = l
+        if it == 'range(self.num_pols)':
+            by['p'] = l
+    if len(by) != 2:
+        return False
+    ia, ip = e.data['_idx']
+    def is_idx(t, l):
+        x = t.single_atom()
+        return x is not None and x.kind in ('idx', 'loopvar') and l['id'] in [str(z) for z in x.args]
+    return is_idx(ia, by['a']) and is_idx(ip, by['p'])
+
+
+# --------------------------------------------------------------------------- UNORDERED sweep
+_INSENSITIVE = {'sorted', 'len', 'set', 'frozenset', 'min', 'max', 'any', 'all'}
+_SETOPS = (ast.Sub, ast.BitOr, ast.BitAnd, ast.BitXor)
+_LISTING = {'glob.glob', 'glob.iglob', 'os.listdir', 'os.scandir'}
+_SETMETH = {'union', 'intersection', 'difference', 'symmetric_difference'}
+_MUTCALL = {'append', 'extend', 'insert', 'write', 'update', 'setdefault', 'pop', 'add_signal', 'writelines'}
+
+
+def unordered_iteration(tree_or_func):
+    """Sites where a value whose iteration order is not determined by the program's inputs (a set, a set operation
+    on dictionary views, an unsorted directory listing) is consumed in an order-sensitive way.
+    Returns (violations, n_sources): violations = [(node, text)], n_sources = unordered source expressions seen."""
+    root = tree_or_func
+    parent = {}
+    for n in ast.walk(root):
+        for c in ast.iter_child_nodes(n):
+            parent[id(c)] = n
+    funcs = [n for n in ast.walk(root) if isinstance(n, (ast.FunctionDef, ast.AsyncFunctionDef, ast.Lambda))]
+
+    def scope_of(n):
+        p = parent.get(id(n))
+        while p is not None and not isinstance(p, (ast.FunctionDef, ast.AsyncFunctionDef, ast.Lambda, ast.Module)):
+            p = parent.get(id(p))
+        return p
+
+    def is_view(e):
+        return isinstance(e, ast.Call) and isinstance(e.func, ast.Attribute) and e.func.attr in ('keys', 'items') and not e.args
+
+    tainted = {}        # (scope id, name) -> True   names bound (only) to unordered values
+
+    def unordered(e):
+        if isinstance(e, (ast.Set, ast.SetComp)):
+            return True
+        if isinstance(e, ast.Call):
+            f = e.func
+            if isinstance(f, ast.Name) and f.id in ('set', 'frozenset'):
+                return True
+            try:
+                txt = ast.unparse(f)
+            except Exception:
+                txt = ''
+            if txt in _LISTING or txt.endswith('.iterdir') or (isinstance(f, ast.Attribute) and f.attr in ('glob', 'rglob')
+                                                               and txt != 'glob.glob' and False):
+                return True
+            if isinstance(f, ast.Attribute) and f.attr in _SETMETH:
+                return True
+        if isinstance(e, ast.BinOp) and isinstance(e.op, _SETOPS):
+            return unordered(e.left) or unordered(e.right) or (is_view(e.left) or is_view(e.right))
+        if isinstance(e, ast.Name) and isinstance(e.ctx, ast.Load):
+            return tainted.get((id(scope_of(e)), e.id), False)
+        if isinstance(e, ast.IfExp):
+            return unordered(e.body) or unordered(e.orelse)
+        return False
+
+    # names assigned exactly once in their scope, to an unordered value
+    assigns = {}
+    for n in ast.walk(root):
+        if isinstance(n, ast.Assign):
+            for t in n.targets:
+                if isinstance(t, ast.Name):
+                    assigns.setdefault((id(scope_of(n)), t.id), []).append(n.value)
+        elif isinstance(n, (ast.AugAssign, ast.AnnAssign)) and isinstance(n.target, ast.Name):
+            assigns.setdefault((id(scope_of(n)), n.target.id), []).append(None)
+        elif isinstance(n, (ast.For, ast.comprehension)):
+            for t in ast.walk(n.target):
+                if isinstance(t, ast.Name):
+                    assigns.setdefault((id(scope_of(n)), t.id), []).append(None)
+    for _ in range(3):
+        for k, vals in assigns.items():
+            if vals and all(v is not None and unordered(v) for v in vals):
+                tainted[k] = True
+
+    def body_insensitive(loop):
+        loaded_outside = set()
+        inside = {id(x) for x in ast.walk(loop)}
+        sc = scope_of(loop)
+        for x in ast.walk(sc) if sc is not None else []:
+            if isinstance(x, ast.Name) and isinstance(x.ctx, ast.Load) and id(x) not in inside:
+                loaded_outside.add(x.id)
+        for st in [s for b in loop.body for s in ast.walk(b)]:
+            if isinstance(st, (ast.Return, ast.Break, ast.Yield, ast.YieldFrom, ast.With, ast.Delete, ast.Global)):
+                return False
+            if isinstance(st, (ast.Assign, ast.AugAssign, ast.AnnAssign)):
+                tg = st.targets if isinstance(st, ast.Assign) else [st.target]
+                for t in tg:
+                    for x in ast.walk(t):
+                        if isinstance(x, (ast.Subscript, ast.Attribute)) and isinstance(x.ctx, ast.Store):
+                            return False
+                        if isinstance(x, ast.Name) and isinstance(x.ctx, ast.Store) and x.id in loaded_outside:
+                            return False
+            if isinstance(st, ast.Call) and isinstance(st.func, ast.Attribute) and st.func.attr in _MUTCALL:
+                return False
+            if isinstance(st, ast.Call) and isinstance(st.func, ast.Name) and st.func.id in ('print', 'setattr', 'next'):
+                return False
+        return True
+
+    viol = []
+    nsrc = 0
+    for n in ast.walk(root):
+        if not isinstance(n, ast.expr) or not unordered(n):
+            continue
+        p = parent.get(id(n))
+        if isinstance(n, ast.Name) and isinstance(p, ast.Assign) and n in p.targets:
+            continue
+        if not isinstance(n, ast.Name):
+            nsrc += 1
+        # contexts that do not observe the order
+        if isinstance(p, ast.Call) and n in p.args and isinstance(p.func, ast.Name) and p.func.id in _INSENSITIVE:
+            continue
+        if isinstance(p, ast.Call) and isinstance(p.func, ast.Attribute) and p.func.value is n:
+            continue        # method of the set itself (add, issubset, ...): no iteration order observed
+        if isinstance(p, ast.Compare) and n in p.comparators:
+            continue
+        if isinstance(p, ast.Compare) and p.left is n and all(isinstance(o, (ast.Eq, ast.NotEq, ast.LtE, ast.Lt, ast.GtE, ast.Gt))
+                                                              for o in p.ops):
+            continue
+        if isinstance(p, ast.BinOp) and isinstance(p.op, _SETOPS):
+            continue        # judged at the enclosing set expression
+        if isinstance(p, ast.Assign) and p.value is n and all(isinstance(t, ast.Name) for t in p.targets):
+            k = (id(scope_of(p)), p.targets[0].id)
+            if tainted.get(k):
+                continue    # judged at the uses of the name
+        if isinstance(p, (ast.If, ast.While, ast.IfExp)) and getattr(p, 'test', None) is n:
+            continue        # truthiness
+        if isinstance(p, ast.UnaryOp) and isinstance(p.op, ast.Not):
+            continue
+        if isinstance(p, ast.BoolOp):
+            continue
+        if isinstance(p, ast.IfExp):
+            continue        # judged at the conditional expression
+        if isinstance(p, ast.For) and p.iter is n and body_insensitive(p):
+            continue
+        if isinstance(p, ast.comprehension) and p.iter is n:
+            comp = parent.get(id(p))
+            if isinstance(comp, ast.SetComp):
+                continue
+            cp = parent.get(id(comp))
+            if isinstance(cp, ast.Call) and comp in cp.args and isinstance(cp.func, ast.Name) and cp.func.id in _INSENSITIVE:
+                continue
+        if isinstance(p, ast.Return) or isinstance(p, ast.keyword) or (isinstance(p, ast.Call) and n in p.args) \
+                or isinstance(p, (ast.For, ast.comprehension, ast.Starred, ast.Subscript, ast.Tuple, ast.List, ast.Dict,
+                                  ast.Attribute, ast.Assign, ast.JoinedStr, ast.FormattedValue, ast.Yield, ast.Expr)):
+            if isinstance(p, ast.Expr):
+                continue
+            viol.append((n, stmt_text(p if not isinstance(p, ast.comprehension) else parent.get(id(p)))))
+    return viol, nsrc
+
+
+UNORDERED_WITNESS = '''
+def merge(a, b):
+    for key in set(a) - set(b):
+        b[key] = a[key]
+    return b
+'''
+UNORDERED_TWIN = '''
+def merge(a, b):
+    for key in sorted(set(a) - set(b)):
+        b[key] = a[key]
+    if len(set(a)) > 1 and 'x' in set(b):
+        raise ValueError
+    return b
+'''
+
+
+def unordered_sweep(ctx, rule='UNORDERED'):
+    """package-wide: no order-sensitive consumption of a set / unsorted listing (plus the must-fire witness)"""
+    w, _ = unordered_iteration(ast.parse(UNORDERED_WITNESS))
+    t, _ = unordered_iteration(ast.parse(UNORDERED_TWIN))
+    ctx.require(len(w) == 1 and not t, 'UNORDERED sweep self-check failed (witness must fire, sorted twin must not)')
+    total = 0
+    for m in ctx.prog.modules.values():
+        viol, nsrc = unordered_iteration(m.tree)
+        total += nsrc
+        for n, text in viol:
+            fi = ctx.prog.enclosing_function(m, n)
+            ctx.ob(rule, 'values with no input-determined iteration order (sets, set operations on dictionary views, unsorted '
+                   'directory listings) are consumed only through order-insensitive operations or sorted()', fi or m.relpath, False,
+                   {'expression': ast.unparse(n), 'consumer': text}, node=n, construct=text)
+    ctx.ob(rule, 'package sweep: no order-sensitive consumption of unordered collections', 'setigen/**', True,
+           {'unordered_sources_seen': total}, construct='package sweep: unordered sources')
+    return total
+
+
+def init_invariant(ctx, cls_short, attr):
+    """Class invariant for a container attribute: the value `self.<attr>` has at the exit of __init__, rewritten over
+    the object's own attributes (objects constructed in __init__ are named by the attribute that holds them,
+    constructor parameters by the attribute that copies them).  Returned only when it is an invariant: neither
+    <attr> nor any attribute the expression mentions is assigned or mutated in place by any function other than
+    __init__ (name-based sweep over the whole package).  None otherwise."""
+    from vstatic.sva import MUTATING_METHODS
+    ci = ctx.prog.cls(cls_short)
+    init = ci.find_method('__init__')
+    if init is None:
+        return None
+    r, I = ctx.run(init, expand=False)
+    v = selfattr(r, attr)
+    if v is None:
+        return None
+    selfk = sym('self').key
+    by_new, by_param = {}, {}
+    for (ok, name), val in r.heap.items():
+        if ok != selfk or name == attr:
+            continue
+        a = val.single_atom()
+        if a is not None and a.kind == 'ite' and a.args[2].single_atom() is not None and a.args[2].single_atom().kind == 'undef':
+            a = a.args[1].single_atom()       # attribute that exists only in some configurations
+        if a is not None and a.kind == 'new':
+            by_new.setdefault(a.key, name)
+        elif a is not None and a.kind == 'sym' and a.args[0] in init.all_params():
+            by_param.setdefault(a.key, name)
+    used = set()
+
+    def fn(a):
+        if a.key in by_new:
+            used.add(by_new[a.key])
+            return T.mk_attr(sym('self'), by_new[a.key])
+        if a.key in by_param:
+            used.add(by_param[a.key])
+            return T.mk_attr(sym('self'), by_param[a.key])
+        return None
+    w = T.subst(v, fn)
+    for a in T.all_atoms(w).values():
+        if a.kind == 'new' or (a.kind == 'sym' and a.args[0] != 'self') or a.kind in ('loopvar', 'after', 'undef'):
+            return None
+    family = {c.qual for c in ci.mro()} | {c.qual for c in ctx.prog.classes.values() if ci in c.mro()}
+
+    def foreign_self(fi, n):
+        """`self.<name>` inside a method of an unrelated class is another object's attribute"""
+        recv = n.value if isinstance(n, ast.Attribute) else None
+        o = fi
+        while o is not None and o.cls is None:
+            o = o.parent
+        return isinstance(recv, ast.Name) and recv.id == 'self' and o is not None and o.cls.qual not in family
+    for name in used | {attr}:
+        for fi in ctx.prog.functions.values():
+            if isinstance(fi.node, ast.Lambda) or fi is init:
+                continue
+            for n in ast.walk(fi.node):
+                if isinstance(n, ast.Attribute) and n.attr == name and foreign_self(fi, n):
+                    continue
+                if isinstance(n, ast.Attribute) and n.attr == name:
+                    if isinstance(n.ctx, (ast.Store, ast.Del)):
+                        return None
+                if isinstance(n, ast.Subscript) and isinstance(n.ctx, (ast.Store, ast.Del)) and \
+                        isinstance(n.value, ast.Attribute) and n.value.attr == name and name == attr:
+                    return None
+                if isinstance(n, ast.Call) and isinstance(n.func, ast.Attribute) and n.func.attr in MUTATING_METHODS and \
+                        isinstance(n.func.value, ast.Attribute) and n.func.value.attr == name and name == attr:
+                    return None
+                if isinstance(n, ast.Call) and isinstance(n.func, ast.Name) and n.func.id == 'setattr' and fi.module is ci.module:
+                    if len(n.args) >= 2 and not (isinstance(n.args[1], ast.Constant) and n.args[1].value != name):
+                        return None
+    return w
+
+
+def prog_functions(ctx):
+    return [fi for fi in ctx.prog.functions.values() if not isinstance(fi.node, ast.Lambda)]
+
+
+def attr_stores_with_loop(fnode, attr):
+    """(Assign statement, innermost enclosing For/While or None) for every `<x>.<attr> = value` directly in fnode"""
+    out = []
+
+    def walk(stmts, loop):
+        for st in stmts:
+            if isinstance(st, (ast.FunctionDef, ast.AsyncFunctionDef, ast.ClassDef)):
+                continue
+            if isinstance(st, ast.Assign) and any(isinstance(t, ast.Attribute) and t.attr == attr for t in st.targets):
+                out.append((st, loop))
+            for field in ('body', 'orelse', 'finalbody'):
+                sub = getattr(st, field, None)
+                if isinstance(sub, list):
+                    walk(sub, st if isinstance(st, (ast.For, ast.While)) and field == 'body' else loop)
+            for h in getattr(st, 'handlers', []):
+                walk(h.body, loop)
+    walk(fnode.body, None)
+    return out
+
+
+_FRESH_CALLS = {'list', 'dict', 'deepcopy', 'copy', 'array', 'zeros', 'empty', 'ones', 'full'}
+
+
+def fresh_value(fnode, st, loop):
+    """the value stored by `st` is an object constructed by this very execution of the statement (or, for a name,
+    by a definition inside the same loop iteration) -- not one shared between iterations, calls or objects"""
+    def fresh_expr(e):
+        if isinstance(e, (ast.List, ast.ListComp, ast.Dict, ast.DictComp, ast.Set, ast.SetComp)):
+            return True
+        if isinstance(e, ast.BinOp) and isinstance(e.op, (ast.Mult, ast.Add)):
+            return fresh_expr(e.left) or fresh_expr(e.right)
+        if isinstance(e, ast.Call):
+            f = e.func
+            nm = f.attr if isinstance(f, ast.Attribute) else (f.id if isinstance(f, ast.Name) else None)
+            return nm in _FRESH_CALLS
+        if isinstance(e, ast.IfExp):
+            return fresh_expr(e.body) and fresh_expr(e.orelse)
+        return False
+    v = st.value
+    if fresh_expr(v):
+        return True, 'constructed at the store'
+    if isinstance(v, ast.Name):
+        scope = loop.body if loop is not None else fnode.body
+        inside = {id(x) for b in scope for x in ast.walk(b)}
+        defs = [x for x in ast.walk(fnode) if isinstance(x, ast.Assign) and any(isinstance(t, ast.Name) and t.id == v.id for t in x.targets)]
+        if defs and all(id(d) in inside and fresh_expr(d.value) for d in defs):
+            return True, 'constructed in the same iteration'
+        return False, f'`{v.id}` is bound outside the loop iteration (or not to a new object): one object would be shared'
+    return False, 'value is not a newly constructed container'
